@@ -6,6 +6,18 @@ From Coq Require Import ZifyBool.
 Ltac Zify.zify_post_hook ::= Z.to_euclidean_division_equations.
 Set Default Timeout 60.
 
+Ltac nb := change (nbytes U16) with 2 in *; change (nbytes U24) with 3 in *; change (nbytes U32) with 4 in *;
+           change (Z.to_nat 2) with 2%nat in *; change (Z.to_nat 3) with 3%nat in *; change (Z.to_nat 4) with 4%nat in *.
+
+Ltac pows := change (256 ^ 0) with 1 in *; change (256 ^ 1) with 256 in *; change (256 ^ 2) with 65536 in *;
+             change (256 ^ 3) with 16777216 in *.
+
+Ltac divs := change (8 / 1) with 8 in *; change (8 / 2) with 4 in *; change (8 / 4) with 2 in *; change (8 / 8) with 1 in *;
+             change (16 / 8) with 2 in *; change (24 / 8) with 3 in *; change (32 / 8) with 4 in *.
+
+Section WithUsize.
+Context {U : Usize}.
+
 (* ---- ranges of validity ----------------------------------------------------------------------- *)
 (* every byte of a buffer is an u8 *)
 Definition bytes_ok (buf : list Z) : Prop := Forall (fun b => 0 <= b < 256) buf.
@@ -534,8 +546,6 @@ Proof.
   apply Z.mod_pos_bound. lia.
 Qed.
 
-Ltac nb := change (nbytes U16) with 2 in *; change (nbytes U24) with 3 in *; change (nbytes U32) with 4 in *;
-           change (Z.to_nat 2) with 2%nat in *; change (Z.to_nat 3) with 3%nat in *; change (Z.to_nat 4) with 4%nat in *.
 
 Lemma bytes_ok_encode t alt v : multi_byte t -> bytes_ok (encode_bytes t alt v).
 Proof.
@@ -757,8 +767,6 @@ Definition be_value (buf : list Z) (s n : Z) : Z := zsum (map (fun k => byte_at 
 
 Definition whole_bytes (t : rawty) : Prop := t = U8 \/ multi_byte t.
 
-Ltac pows := change (256 ^ 0) with 1 in *; change (256 ^ 1) with 256 in *; change (256 ^ 2) with 65536 in *;
-             change (256 ^ 3) with 16777216 in *.
 
 Lemma layout_le t buf i :
   whole_bytes t -> bytes_ok buf -> len_ok buf -> 0 <= i < pixels_total t (buf_len buf) ->
@@ -838,8 +846,6 @@ Proof.
 Qed.
 
 (* the bit sets of different pixels are disjoint, and every bit of the used bytes belongs to a pixel *)
-Ltac divs := change (8 / 1) with 8 in *; change (8 / 2) with 4 in *; change (8 / 4) with 2 in *; change (8 / 8) with 1 in *;
-             change (16 / 8) with 2 in *; change (24 / 8) with 3 in *; change (32 / 8) with 4 in *.
 
 Lemma owns_disjoint t alt i j k q : 0 <= i -> 0 <= j -> i <> j -> owns t alt i k q -> ~ owns t alt j k q.
 Proof.
@@ -1081,3 +1087,135 @@ Proof.
   intros H. destruct (iter_is_loads t alt (iter_new buf) (iter_new_ok buf H)) as (l & A & B & _).
   exists l. split; [exact A|exact B].
 Qed.
+
+(* ---- closure of raw_ok: what `new` / `from_u32` produce and what `load` returns -------------------------- *)
+Lemma load_is_raw t alt buf i v :
+  bytes_ok buf -> len_ok buf -> 0 <= i -> load t alt buf i = Some v -> raw_ok t v.
+Proof.
+  intros Hb Hl Hi E.
+  assert (R : i < pixels_total t (buf_len buf)) by (apply (load_some_iff t alt); auto; rewrite E; discriminate).
+  destruct (rawty_cases t) as [St|[->|Mt]].
+  - rewrite load_sub_in in E by auto. inversion E. apply raw_new_ok.
+  - rewrite u8_total in R. rewrite load_u8_in in E by auto. inversion E. apply raw_new_ok.
+  - assert (W : whole_bytes t) by (right; auto).
+    destruct alt.
+    + rewrite (layout_be t buf i W Hb Hl (conj Hi R)) in E. inversion E. subst v. clear E.
+      unfold raw_ok, be_value.
+      destruct Mt as [->|[->| ->]]; nb;
+        [change (range 0 2) with [0; 1] | change (range 0 3) with [0; 1; 2] | change (range 0 4) with [0; 1; 2; 3]];
+        cbn [map zsum fold_right bits];
+        repeat match goal with |- context [256 ^ ?e] => let x := eval vm_compute in (256 ^ e) in change (256 ^ e) with x end;
+        repeat match goal with |- context [2 ^ ?e] => let x := eval vm_compute in (2 ^ e) in change (2 ^ e) with x end;
+        repeat match goal with |- context [byte_at buf ?k] =>
+          let H := fresh in pose proof (byte_at_ok buf k Hb) as H; generalize dependent (byte_at buf k); intros end;
+        lia.
+    + rewrite (layout_le t buf i W Hb Hl (conj Hi R)) in E. inversion E. subst v. clear E.
+      unfold raw_ok, le_value.
+      destruct Mt as [->|[->| ->]]; nb;
+        [change (range 0 2) with [0; 1] | change (range 0 3) with [0; 1; 2] | change (range 0 4) with [0; 1; 2; 3]];
+        cbn [map zsum fold_right bits];
+        repeat match goal with |- context [256 ^ ?e] => let x := eval vm_compute in (256 ^ e) in change (256 ^ e) with x end;
+        repeat match goal with |- context [2 ^ ?e] => let x := eval vm_compute in (2 ^ e) in change (2 ^ e) with x end;
+        repeat match goal with |- context [byte_at buf ?k] =>
+          let H := fresh in pose proof (byte_at_ok buf k Hb) as H; generalize dependent (byte_at buf k); intros end;
+        lia.
+Qed.
+
+(* store of any u32 handed over through from_u32 round-trips to the masked value *)
+Lemma load_store_new t alt x buf i :
+  bytes_ok buf -> len_ok buf -> 0 <= i < pixels_total t (buf_len buf) ->
+  load t alt (fst (store t alt (raw_new t x) buf i)) i = Some (raw_new t x).
+Proof.
+  intros Hb Hl Hi.
+  destruct (load_store t alt (raw_new t x) buf i Hb Hl (raw_new_ok t x) Hi) as (b' & S & L & _).
+  rewrite S. exact L.
+Qed.
+
+(* ---- closed form of the bytes a store writes ---------------------------------------------------------------- *)
+Lemma store_writes_sub t (alt : order) v buf i :
+  sub_byte t -> bytes_ok buf -> raw_ok t v -> 0 <= i < pixels_total t (buf_len buf) ->
+  let lo := if alt then (i mod ppb t) * bits t else 8 - (i mod ppb t + 1) * bits t in
+  let b := byte_at buf (i / ppb t) in
+  byte_at (fst (store t alt v buf i)) (i / ppb t) = b - ((b / 2 ^ lo) mod 2 ^ bits t) * 2 ^ lo + v * 2 ^ lo.
+Proof.
+  intros St Hb Hv Hi.
+  destruct (sub_total t (buf_len buf) i St (proj1 Hi) (buf_len_nonneg buf)) as (T & M & D).
+  rewrite store_sub_in by auto. cbn [fst]. rewrite byte_at_upd_eq by lia.
+  pose proof (sb_store t alt (i mod ppb t) (byte_at buf (i / ppb t)) v St M (byte_at_ok _ _ Hb) Hv) as S.
+  pose proof (sb_load t alt (i mod ppb t) (byte_at buf (i / ppb t)) St M (byte_at_ok _ _ Hb)) as L.
+  cbv zeta in *. destruct S as (_ & _ & S2 & _). destruct L as (_ & L2 & _). rewrite <- L2. exact S2.
+Qed.
+
+Lemma store_writes_whole t (alt : order) v buf i k :
+  whole_bytes t -> bytes_ok buf -> len_ok buf -> raw_ok t v -> 0 <= i < pixels_total t (buf_len buf) ->
+  0 <= k < nbytes t ->
+  byte_at (fst (store t alt v buf i)) (i * nbytes t + k) =
+  (v / 256 ^ (if alt then nbytes t - 1 - k else k)) mod 256.
+Proof.
+  intros Wt Hb Hl Hv Hi Hk. apply len_ok_usize in Hl. destruct Wt as [->|Mt].
+  - change (nbytes U8) with 1 in *. assert (k = 0) by lia. subst k.
+    rewrite u8_total in Hi. rewrite store_u8_in by auto. cbn [fst].
+    replace (i * 1 + 0) with i by lia. rewrite byte_at_upd_eq by auto.
+    unfold raw_ok in Hv. cbn [bits] in Hv. destruct alt; change (1 - 1 - 0) with 0; change (256 ^ 0) with 1;
+      rewrite Z.div_1_r, Z.mod_small; lia.
+  - destruct (multi_nbytes t Mt) as [Hn _].
+    pose proof (proj1 (multi_total t (buf_len buf) i Mt (proj1 Hi) (buf_len_nonneg buf)) (proj2 Hi)) as Hr.
+    pose proof (length_encode t alt v Mt) as Le.
+    rewrite store_multi_in by auto. cbn [fst]. rewrite byte_at_splice by nia. rewrite Le.
+    replace (i * nbytes t + k <? i * nbytes t) with false by lia.
+    replace (i * nbytes t + k <? i * nbytes t + nbytes t) with true by lia.
+    replace (i * nbytes t + k - i * nbytes t) with k by lia.
+    unfold raw_ok in Hv. clear Hr Le Hi Hb Hl.
+    destruct Mt as [->|[->| ->]]; nb; cbn [bits] in Hv;
+      assert (Ek : k = 0 \/ k = 1 \/ k = 2 \/ k = 3) by lia;
+      destruct Ek as [->|[->|[->| ->]]]; try lia; destruct alt;
+      unfold encode_bytes, to_be; nb;
+      change (Z.to_nat 0) with 0%nat; change (Z.to_nat 1) with 1%nat; change (Z.to_nat 2) with 2%nat; change (Z.to_nat 3) with 3%nat;
+      cbn [to_le rev app skipn firstn nth];
+      repeat match goal with |- context [?a - 1 - ?b] => let x := eval vm_compute in (a - 1 - b) in change (a - 1 - b) with x end;
+      repeat match goal with |- context [256 ^ ?e] => let x := eval vm_compute in (256 ^ e) in change (256 ^ e) with x end;
+      lia.
+Qed.
+
+(* ---- load depends only on the bits the pixel owns ------------------------------------------------------------ *)
+Lemma byte_eq_of_bits a b :
+  0 <= a < 256 -> 0 <= b < 256 -> (forall q, 0 <= q < 8 -> Z.testbit a q = Z.testbit b q) -> a = b.
+Proof.
+  intros Ha Hb H. apply Z.bits_inj'. intros q Hq. destruct (Z_lt_ge_dec q 8); [apply H; lia|].
+  rewrite !Z.bits_above_log2; auto; try lia.
+  - destruct (Z.eq_dec b 0) as [->|]; [cbn; lia|]. apply Z.log2_lt_pow2; try lia. apply Z.lt_le_trans with (2 ^ 8); [cbn; lia|]. apply Z.pow_le_mono_r; lia.
+  - destruct (Z.eq_dec a 0) as [->|]; [cbn; lia|]. apply Z.log2_lt_pow2; try lia. apply Z.lt_le_trans with (2 ^ 8); [cbn; lia|]. apply Z.pow_le_mono_r; lia.
+Qed.
+
+Lemma load_depends_on_owned_bits t (alt : order) b1 b2 i :
+  bytes_ok b1 -> bytes_ok b2 -> buf_len b1 = buf_len b2 -> len_ok b1 ->
+  0 <= i < pixels_total t (buf_len b1) ->
+  (forall k q, 0 <= q < 8 -> owns t alt i k q -> Z.testbit (byte_at b1 k) q = Z.testbit (byte_at b2 k) q) ->
+  load t alt b1 i = load t alt b2 i.
+Proof.
+  intros H1 H2 El Hl Hi H. pose proof (len_ok_usize b1 Hl) as Hu. unfold owns in H.
+  destruct (rawty_cases t) as [St|[->|Mt]].
+  - destruct (sub_total t (buf_len b1) i St (proj1 Hi) (buf_len_nonneg b1)) as (T & M & D).
+    replace (bits t <? 8) with true in H by (destruct St as [->|[->| ->]]; reflexivity). cbv iota zeta in H.
+    rewrite !load_sub_in by (auto; rewrite <- ?El; auto).
+    pose proof (sb_load t alt (i mod ppb t) (byte_at b1 (i / ppb t)) St M (byte_at_ok _ _ H1)) as L1.
+    pose proof (sb_load t alt (i mod ppb t) (byte_at b2 (i / ppb t)) St M (byte_at_ok _ _ H2)) as L2.
+    cbv zeta in L1, L2. destruct L1 as (L1 & K & K0 & K8). destruct L2 as (L2 & _).
+    rewrite L1, L2. f_equal. set (lo := bit_index t alt (i mod ppb t)) in *.
+    destruct (ppb_bits t St) as (_ & _ & Bp).
+    apply Z.bits_inj'. intros j Hj. destruct (Z_lt_ge_dec j (bits t)).
+    + rewrite !Z.mod_pow2_bits_low, !Z.div_pow2_bits by lia. apply H.
+      * clear - K0 K8 l Hj. lia.
+      * split; [reflexivity|]. rewrite <- K. clear - l Hj. lia.
+    + rewrite !Z.mod_pow2_bits_high by lia. reflexivity.
+  - change (bits U8 <? 8) with false in H. cbv iota in H. change (nbytes U8) with 1 in H.
+    rewrite u8_total in Hi. rewrite !load_u8_in by (rewrite <- ?El; auto). f_equal. f_equal.
+    apply byte_eq_of_bits; try apply byte_at_ok; auto. intros q Hq. apply H; auto. lia.
+  - destruct (multi_nbytes t Mt) as [Hn Hb8].
+    replace (bits t <? 8) with false in H by lia. cbv iota in H.
+    rewrite !load_multi_in by (auto; rewrite <- ?El; auto). f_equal. f_equal.
+    unfold pixel_bytes. apply map_ext_in. intros k Hk. apply In_range in Hk.
+    apply byte_eq_of_bits; try apply byte_at_ok; auto. intros q Hq. apply H; auto. nia.
+Qed.
+
+End WithUsize.
